@@ -338,6 +338,7 @@ func genCT(g *G) (of.Action, *spec.Node) {
 	a.Alg = alg
 	n := spec.N("nx.ct", spec.U("flags", flags), spec.U("zone_src", zsrc), spec.U("zone_ofs_nbits", zon), spec.U("recirc_table", recirc), spec.U("alg", uint64(alg)))
 	k := g.ListLen("nnested", 6)
+	var subs []of.Action
 	g.Depth++
 	for i := 0; i < k; i++ {
 		var sub of.Action
@@ -355,10 +356,29 @@ func genCT(g *G) (of.Action, *spec.Node) {
 			break
 		}
 		g.Budget -= sz
-		a.AddAction(sub)
+		subs = append(subs, sub)
 		n.Add(sn)
 	}
 	g.Depth--
+	if len(subs) >= 2 && g.Chance("nested_spread_from_callers_list", 1, 3) {
+		// The caller keeps its own list (with room to grow), hands a prefix of it to this action and the
+		// same prefix to a second conntrack action, then goes on adding to both actions.
+		g.Label("nested_spread_from_callers_list")
+		j := g.Int("spread_prefix", 1, len(subs)-1)
+		list := make([]of.Action, len(subs), len(subs)+4)
+		copy(list, subs)
+		other := of.NewNXActionConnTrack()
+		a.AddAction(list[:j]...)
+		other.AddAction(list[:j]...)
+		for _, sub := range subs[j:] {
+			a.AddAction(sub)
+		}
+		other.AddAction(of.NewNXActionDecTTL())
+	} else {
+		for _, sub := range subs {
+			a.AddAction(sub)
+		}
+	}
 	g.Label("nested_ct")
 	return a, n
 }
